@@ -854,8 +854,10 @@ class Ops:
     def store_subscript(self, obj, idx, v, st, env, aug):
         if isinstance(obj, DictV):
             if idx[0] == "index":
-                if obj.items is not None and self.interp.join_depth == 0:
-                    return DictV(items=obj.items + ((idx[1], v),))
+                if obj.items is not None and (self.interp.join_depth == 0 or obj.born == self.interp.join_depth) and not self.in_abstract_body_since(obj):
+                    if any(k_ is idx[1] or k_ == idx[1] for k_, _ in obj.items):
+                        return DictV(items=tuple((k_, v if (k_ is idx[1] or k_ == idx[1]) else v_) for k_, v_ in obj.items), ordered=obj.ordered, born=obj.born)
+                    return DictV(items=obj.items + ((idx[1], v),), ordered=obj.ordered, born=obj.born)
                 keys = self.dict_keys(obj)
                 k = idx[1]
                 kelem = None
@@ -882,6 +884,10 @@ class Ops:
 
     def current_loop_order(self, env):
         return None
+
+    def in_abstract_body_since(self, d) -> bool:
+        """True when an abstract loop was entered after the dictionary was created (then a store may execute any number of times)."""
+        return d.born >= 0 and self.interp.join_depth > d.born
 
     def augassign(self, cur, op, rhs, st, env):
         tcur = tv_of(cur)
